@@ -301,3 +301,37 @@ Theorem C06_loops_rs_match_model w : 0 < w ->
      Loops.is_one w (Z.of_nat n) fuel a = Done (is_one a)).
 Proof. exact (loops_C06_match_model w). Qed.
 Print Assumptions C06_loops_rs_match_model.
+(* ==== glue tie, round 2 (text written by tools/mk_gluetie.py; keep at the END of the file) ==== *)
+(* ---- tie to the source, second round: the non-loop functions (bits, bit, the bit counts of BInt, swap_bytes / reverse_bits of BInt, is_power_of_two, (checked_)next_power_of_two, is_zero / is_one, cast_signed / cast_unsigned, BInt bitand / bitor / bitxor / not) REGENERATED from /repo/src on every run
+   (Generated/Glue.v, tools/rs2v_glue.py) are the model's, function by function, for every digit width, digit count,
+   build mode and operand (no well-formedness hypothesis): an edit of the source that changes what one of these
+   functions computes or delegates to breaks this theorem ---- *)
+From Bnum.Model Require Import Digit Core Shift AddSub Mul Div Bits Pow.
+From Bnum.Model Require Ops NumTraits.
+From Bnum.Generated Require Import Glue.
+From Bnum.Proofs Require Import GlueTieCommon GlueTieC06.
+Theorem C06_glue_rs_matches_model :
+  (forall w a, Glue.U_bits w a = bits_of w a) /\
+  (forall dbg w a, Glue.U_next_power_of_two dbg w a = U_next_power_of_two dbg w a) /\
+  (forall w a, Glue.U_cast_signed w a = a) /\
+  (forall w a, Glue.I_count_ones w a = count_ones a) /\
+  (forall w a, Glue.I_count_zeros w a = count_zeros w a) /\
+  (forall w a, Glue.I_leading_zeros w a = leading_zeros w a) /\
+  (forall w a, Glue.I_trailing_zeros w a = trailing_zeros w a) /\
+  (forall w a, Glue.I_leading_ones w a = leading_ones w a) /\
+  (forall w a, Glue.I_trailing_ones w a = trailing_ones w a) /\
+  (forall w a, Glue.I_cast_unsigned w a = a) /\
+  (forall w a, Glue.I_swap_bytes w a = swap_bytes w a) /\
+  (forall w a, Glue.I_reverse_bits w a = reverse_bits w a) /\
+  (forall w a, Glue.I_is_power_of_two w a = I_is_power_of_two w a) /\
+  (forall w a, Glue.I_bits w a = bits_of w a) /\
+  (forall w a k, Glue.I_bit w a k = bit w a k) /\
+  (forall w a, Glue.I_is_zero w a = is_zero a) /\
+  (forall w a, Glue.I_is_one w a = is_one a) /\
+  (forall w a, Glue.U_checked_next_power_of_two w a = U_checked_next_power_of_two w a) /\
+  (forall w a b, Glue.I_bitand w a b = bitand a b) /\
+  (forall w a b, Glue.I_bitor w a b = bitor a b) /\
+  (forall w a b, Glue.I_bitxor w a b = bitxor a b) /\
+  (forall w a, Glue.I_not w a = bitnot w a).
+Proof. exact glue_bits_matches_model. Qed.
+Print Assumptions C06_glue_rs_matches_model.
